@@ -489,7 +489,16 @@ AnyP::Uri::parse(const HttpRequestMethod& method, const SBuf &rawUrl)
             if (t && *t == ':') {
                 *t = '\0';
                 ++t;
-                foundPort = atoi(t);
+                // port = 1*DIGIT; atoi() would also accept signs, leading
+                // whitespace, trailing garbage, and wrap huge values
+                foundPort = 0;
+                const char *digit = t;
+                for (; xisdigit(*digit) && foundPort <= 65535; ++digit)
+                    foundPort = foundPort * 10 + (*digit - '0');
+                if (digit == t || *digit != '\0') {
+                    debugs(23, 3, "Invalid port '" << t << "'");
+                    return false;
+                }
             }
         }
 
